@@ -56,8 +56,11 @@ HOSTILE = [5.0, -3.5, 0.0, 1.0, 'txt', '', True, False, '#N/A', '#DIV/0!',
 def _lib_value(v):
     if v == 'BLANK':
         return [[sh.EMPTY]]
-    if v in ('#N/A', '#DIV/0!'):
-        return xl.err(v)
+    if isinstance(v, str) and v.startswith('#'):
+        try:
+            return xl.err(v)        # error constants of the description
+        except KeyError:
+            return v                # '#notanerror' is just text
     return v
 
 
